@@ -868,6 +868,48 @@ func runC18(r *engine.Run) {
 			c.Fail("firmwaremanagement/DevUpgradeImageAnsPayload/received-re-encoding", fmt.Sprintf("%x re-encodes to %x (err %v), expected %x", wire, back, err, canon), nil)
 		}
 	})
+	{
+		n := manyHistoryN(r)
+		r.Rule += fmt.Sprintf(" Many-keys history: %d steps, each the five TS005 derivations under a key not used before in the process, returning to earlier keys every 64th step.", n)
+		r.PartWorkers("multicast-keys/many-keys", []string{fmt.Sprintf("distinct keys:%d", n), "derivation:5"}, 1, 1, func(c *engine.Case) {
+			ok := manyHistoryRun(n, func(i int) bool {
+				c.Eval()
+				key := manyKey(i)
+				addr := 0x01000000 + uint32(i)
+				blk := func(first byte, withAddr bool) []byte {
+					b := make([]byte, 16)
+					b[0] = first
+					if withAddr {
+						binary.LittleEndian.PutUint32(b[1:5], addr)
+					}
+					return b
+				}
+				type d struct {
+					name string
+					f    func() (lorawan.AES128Key, error)
+					want []byte
+				}
+				for _, x := range []d{
+					{"GetMcRootKeyForGenAppKey", func() (lorawan.AES128Key, error) { return multicastsetup.GetMcRootKeyForGenAppKey(keyOf(key)) }, spec.AESEnc(key, blk(0x00, false))},
+					{"GetMcRootKeyForAppKey", func() (lorawan.AES128Key, error) { return multicastsetup.GetMcRootKeyForAppKey(keyOf(key)) }, spec.AESEnc(key, blk(0x20, false))},
+					{"GetMcKEKey", func() (lorawan.AES128Key, error) { return multicastsetup.GetMcKEKey(keyOf(key)) }, spec.AESEnc(key, blk(0x00, false))},
+					{"GetMcAppSKey", func() (lorawan.AES128Key, error) { return multicastsetup.GetMcAppSKey(keyOf(key), devAddrOf(addr)) }, spec.AESEnc(key, blk(0x01, true))},
+					{"GetMcNetSKey", func() (lorawan.AES128Key, error) { return multicastsetup.GetMcNetSKey(keyOf(key), devAddrOf(addr)) }, spec.AESEnc(key, blk(0x02, true))},
+				} {
+					got, err := x.f()
+					if err != nil || !bytes.Equal(got[:], x.want) {
+						c.Fail("multicast-keys/many-keys/"+x.name, fmt.Sprintf("key number %d: %s(key %x, McAddr %08x) = %x (err %v), TS005 derivation %x", i, x.name, key, addr, got[:], err, x.want), nil)
+						return false
+					}
+				}
+				return true
+			})
+			if ok {
+				c.NonTrivial()
+				c.Outcome("many-keys/history-completed")
+			}
+		})
+	}
 	r.PartDims("multicast-keys", []string{"key:3", "McAddr:3 + 32 single-bit walks"}, 3*35, func(c *engine.Case) {
 		key := c02Keys[c.Index%3]
 		ai := int(c.Index / 3)
